@@ -214,6 +214,16 @@ class Gen:
                         'integrate(%s(tau)*%s(t - tau), (tau, -oo, t))'])
         return 'named_conv', form % (v, h)
 
+    def k_sift(self):
+        v = self.ch(['v', 'x', 'y'])
+        r = self.rng.random()
+        tau = fr(self.ch(['0'] + DELAYS))
+        if r < 0.5:
+            return 'sift', '%s(t)*delta(%s)' % (v, lin(1, -tau))
+        if r < 0.75:
+            return 'sift', '%s(t)*delta(%s)' % (v, lin(self.ch(['2', '3', '1/2']), -fr(self.ch(DELAYS))))
+        return 'sift', '%s(%s)*delta(%s)' % (v, lin(self.ch(['2', '1/2']), -fr(self.ch(['0', '1', '1/2']))), lin(1, -fr(self.ch(DELAYS))))
+
     def k_cexp(self):
         a = self.ch(['-1', '-2', '-1/2'])
         w = self.ch(['1', '2', '3'])
@@ -230,7 +240,7 @@ class Gen:
     def atom(self):
         r = self.rng.random()
         for p, f in ((0.14, self.k_polyexp), (0.36, self.k_sincos), (0.5, self.k_product), (0.58, self.k_hyp),
-                     (0.69, self.k_impulse), (0.83, self.k_special), (0.95, self.k_named), (0.98, self.k_cexp),
+                     (0.69, self.k_impulse), (0.83, self.k_special), (0.93, self.k_named), (0.96, self.k_sift), (0.98, self.k_cexp),
                      (1.01, self.k_sc3)):
             if r < p:
                 return f()
@@ -459,6 +469,8 @@ def classify(ast):
     if len(fs) == 3 and tags[0] in ('sin', 'cos') and 'exp' not in tags:
         return 'LaplaceTransformer.sin_cos:three-factors-without-exp'
     if 'delta' in tags and 'undef' in tags:
+        if any(f[0] == 'delta' and f[1] >= 1 for f in fs):
+            return 'term:DiracDelta-derivative*undefined-function'
         return 'term:DiracDelta*undefined-function'
     for f in fs:
         if f[0] == 'delta' and f[1] >= 1 and Fraction(f[2][0]) != 1:
@@ -476,6 +488,7 @@ OBLIGATION_KEYS = {
     'table_entry_ramp': ['LaplaceTransformer.function:ramp:scale'],
     'ramp_closed_form_is_integral': ['LaplaceTransformer.function:ramp:scale'],
     'table_entry_sc_guard': ['LaplaceTransformer.sin_cos:three-factors-without-exp'],
+    'table_entry_sift': ['term:DiracDelta*undefined-function'],
 }
 def explains(name, key):
     """does the concrete failing input with fingerprint `key` account for the broken obligation `name`?"""
@@ -534,6 +547,9 @@ def targeted_cases(rng, names):
         if allf or any(x in n for x in ('func', 'deriv', 'integ', 'conv', 'basic')):
             for _ in range(3):
                 add(*g.k_named())
+        if allf or 'sift' in n:
+            for _ in range(3):
+                add(*g.k_sift())
         if allf or any(x in n for x in ('const', 'exp', 'basic')):
             for _ in range(3):
                 add(*g.k_polyexp())
@@ -641,7 +657,8 @@ def run(tier='quick', replay=None):
             cases += history_cases(rng)
             # corpus of past findings, always run first
             for txt in ('tri(2*t)', 'rampstep(t/3)', 'rect(t - 1/4)', 'ramp(t + 1)', 'sin(2*t)*u(t - 1)*u(t - 3)',
-                        'diff(delta(2*t - 1), t)', 'v(t)*delta(t - 1)', '5*delta(t)', 'cos(t)*delta(t) + t', 'exp(-2*t)*diff(delta(t), t)'):
+                        'diff(delta(2*t - 1), t)', 'v(t)*delta(t - 1)', '3*v(t)*delta(t)', 'v(t)*delta(2*t - 1)',
+                        'diff(delta(t - 1), t)*v(t)', '5*delta(t)', 'cos(t)*delta(t) + t', 'exp(-2*t)*diff(delta(t), t)'):
                 cases.insert(0, {'expr': txt, 'zic': False, 'kinds': ['corpus'], 'points': make_points(rng), 'oracle': True})
         tph['translate+gen'] = round(time.time() - t_, 1); t_ = time.time()
         results = core.run_impl('impl_laplace.py', cases) if cases else []
